@@ -72,6 +72,7 @@ class Bits:
         self.residuals = []  # list of tuples of rows (at least one of them equals 1)
         self.infeasible = False
         self.memo = {}
+        self.types = {}      # declared types of otherwise untyped atoms (e.g. initial field values)
 
     # ---- variables ---------------------------------------------------------------------
     def atom(self, t, width):
@@ -158,8 +159,10 @@ class Bits:
 
     def _rows(self, t):
         k = t[0]
-        ty = term_ty(t)
+        ty = term_ty(t) or self.types.get(t)
         w = INT_BITS.get(ty)
+        if k == "init" and w is not None:
+            return self.atom(t, w)
         if k == "c":
             if w is None:
                 raise Top("constant of type %s" % ty)
